@@ -86,6 +86,7 @@ def project(obj, limit=60):
     for s in sch.objs:
         cn = type(s).__name__
         o = getattr(s, 'obj', None)
+        vk = {'PassthroughSymbol': 'pass', 'FeedbackStartSymbol': 'fbstart', 'FeedbackStopSymbol': 'fbstop'}.get(cn, '')
         if cn in ('PassthroughSymbol', 'FeedbackStartSymbol', 'FeedbackStopSymbol'):
             kind, ref = 'virtual', 0
         elif cn == 'MissingConnectionSymbol':
@@ -98,7 +99,7 @@ def project(obj, limit=60):
             kind, ref = 'child', cidx.get(id(o), -1)
         r, c = cells.get(id(s), (-1, -1))
         sidx[id(s)] = len(syms) + 1
-        syms.append({'kind': kind, 'ref': ref, 'x': int(s.x), 'y': int(s.y), 'w': int(s.getWidth()), 'h': int(s.getHeight()), 'row': r, 'col': c})
+        syms.append({'kind': kind, 'ref': ref, 'vk': vk, 'x': int(s.x), 'y': int(s.y), 'w': int(s.getWidth()), 'h': int(s.getHeight()), 'row': r, 'col': c})
     nets = []
     for n in sch.nets:
         if id(n.source) not in sidx or id(n.sink) not in sidx:
@@ -181,7 +182,8 @@ def judge(run, cases, metas, tag):
             seen.add(tid)
             for f in r[2]:
                 cls = metas[tid - 1]['class']
-                if f[0] in ('pin-not-touched', 'wire-figure-not-connected', 'foreign-pin-touched', 'routed-through-foreign-pin'):
+                if f[0] in ('pin-not-touched', 'wire-figure-not-connected', 'foreign-pin-touched', 'routed-through-foreign-pin',
+                            'drawn-figure-in-pieces', 'pin-off-the-drawn-figure'):
                     w = part[r[1] - 1]['N']['wires'][f[1] - 1]
                     if w['driver'] and w['driver'][0] == 'child' and any(rd[0] == 'child' and rd[1] == w['driver'][1] for rd in w['readers']):
                         cls = 'self-feedback'       # a child reading the wire it drives itself (register q wired to its own d)
@@ -356,6 +358,54 @@ def bypass_feedback(rng, count):
     return out
 
 
+def multi_output(rng, count):
+    """a child with several outputs (bit splitter, comparator) that drives two or more inputs of ONE sink through different wires,
+    the sink lying one to four columns further right (behind a chain hanging on another of the outputs)"""
+    import py4hw
+    out = []
+    with quiet():
+        for k in range(count):
+            hw = py4hw.HWSystem()
+
+            class Blk(py4hw.Logic):
+                def __init__(self, parent, name):
+                    super().__init__(parent, name)
+            blk = Blk(hw, 'blk')
+            w = rng.choice([2, 3, 4])
+            a = blk.addIn('a', hw.wire('a', w))
+            b = blk.addIn('b', hw.wire('b', w))
+            src = rng.choice(['bits', 'cmp'])
+            if src == 'bits':
+                outs = [blk.wire('b%d' % i, 1) for i in range(w)]
+                py4hw.BitsLSBF(blk, 'bits', a, outs)
+            else:
+                outs = [blk.wire(n, 1) for n in ('gt', 'eq', 'lt')]
+                py4hw.Comparator(blk, 'cmp', a, b, outs[0], outs[1], outs[2])
+            depth = rng.randint(0, 3)
+            c = outs[0]
+            for i in range(depth):
+                nxt = blk.wire('c%d' % i, 1)
+                py4hw.Not(blk, 'c%d' % i, c, nxt)
+                c = nxt
+            r = blk.wire('r', 1)
+            others = outs[1:]
+            rng.shuffle(others)
+            kind = rng.choice(['mux', 'and3', 'and2'])
+            if kind == 'mux' and len(others) >= 2:
+                py4hw.Mux2(blk, 'sink', c, others[0], others[1], r)
+            elif kind == 'and3' and len(others) >= 2:
+                py4hw.And(blk, 'sink', [others[0], c, others[1]], r)
+            else:
+                t = blk.wire('t', 1)
+                py4hw.And2(blk, 'pre', others[0], c, t)
+                py4hw.And2(blk, 'sink', t, others[-1], r)
+            blk.addOut('r', r)
+            if rng.random() < 0.5:
+                blk.addOut('o', outs[-1])
+            out.append(({'name': 'multi-output %s depth=%d sink=%s' % (src, depth, kind), 'class': 'multi-output'}, blk))
+    return out
+
+
 # netlists that once exposed a defect (see known_findings.json): always part of the check, whatever TLC samples
 REGRESSIONS = [
     [["And2", "And2", "Reg"], [[1, 5], [3, 3], [4]], [[], [], [0, 0, 0]]],        # same wire on two pins of the sink, backward edge
@@ -385,12 +435,14 @@ def check(run):
         blocks += compositions(rng, 40)
         blocks += layered(rng, 150)
         blocks += bypass_feedback(rng, 40)
+        blocks += multi_output(rng, 40)
     else:
         blocks = tlc_netlists(run, 3, ['Reg', 'RegE', 'And2', 'Not', 'Mux2'], 4000, 1)
         blocks += library_blocks(rng, (1, 2, 3, 4), 0.6)
         blocks += compositions(rng, 1500)
         blocks += layered(rng, 5000)
         blocks += bypass_feedback(rng, 400)
+        blocks += multi_output(rng, 600)
     blocks += regression_netlists()
     collect(run, blocks, cases, metas)
     if not cases:
